@@ -84,7 +84,7 @@ def run(ctx):
         "traces_validated_against_impl": len(rows), "evaluations": len(rows),
         "distinct_nontrivial": sum(1 for c in rows if c["mode"] == "strings" and c["lit"] != c["in"]) + sum(1 for c in rows if c["mode"] == "struct" and c["chain"]),
         "rule": "structure: every chain (<= %d items) x call-site forest of the TLC model replayed on the real Logger; values: %d records over "
-                "36 value kinds x 3 positions x levels x addSource; strings: every 1-byte string, 2-byte strings (%s), Unicode scalars (%s) "
+                "48 value kinds (incl. error texts with control bytes, raw JSON in several layouts, times in ten zones) x 3 positions x levels x addSource; strings: every 1-byte string, 2-byte strings (%s), Unicode scalars (%s) "
                 "as msg / key / value / With value / group name; non-trivial = strings that needed escaping + structures with a derivation chain"
                 % (1 if q else 2, sum(1 for c in rows if c["mode"] == "values"), "first byte from 22 class representatives" if q else "all 65536",
                    "boundaries + 6000 seeded" if q else "all 1112064"),
